@@ -40,8 +40,11 @@ func matchLv(f, ch []string) bool {
 
 func cstr(l []string) string { return strings.Join(l, "/") + "/" }
 
-var c05Filters = [][]string{{"a"}, {"a", "b"}, {"b", "a"}, {"a", "+"}, {"b"}, {"a", "b", "c"}, {"a", "a"}, {"b", "b"}}
-var c05Channels = [][]string{{"a"}, {"a", "b"}, {"b", "a"}, {"b"}, {"a", "b", "c"}, {"a", "a"}, {"b", "b"}, {"a", "c"}}
+// longLevel makes the replicated entry of a subscription (key + channel) larger than one kilobyte
+var longLevel = strings.Repeat("L", 1200)
+
+var c05Filters = [][]string{{"a"}, {"a", "b"}, {"b", "a"}, {"a", "+"}, {"b"}, {"a", "b", "c"}, {"a", "a"}, {"b", "b"}, {"b", longLevel}, {"b", longLevel}}
+var c05Channels = [][]string{{"a"}, {"a", "b"}, {"b", "a"}, {"b"}, {"a", "b", "c"}, {"a", "a"}, {"b", "b"}, {"a", "c"}, {"b", longLevel}}
 
 var regimes = []string{"S0", "S1", "S2", "S3", "S4", "S4r"}
 
